@@ -170,6 +170,8 @@ class FOps:
             z3.Implies(z3.And(z3.fpGT(a, zero), z3.fpLEQ(a, one)), z3.fpLEQ(r, zero)),
             z3.Implies(z3.fpEQ(a, one), z3.fpEQ(r, zero)),
         ]
+        for K in (2.0, 4.0, 8.0, 16.0):
+            ax.append(z3.Implies(z3.And(z3.fpGT(a, zero), z3.fpLEQ(a, z3.FPVal(K, S))), z3.fpLEQ(r, z3.FPVal(math.log(K) + 1e-6, S))))
         for (a2, r2) in self._apps("fp_log_apps"):
             both = z3.And(z3.fpGT(a, zero), z3.fpGT(a2, zero))
             ax.append(z3.Implies(z3.And(both, z3.fpLEQ(a, a2)), z3.fpLEQ(r, r2)))
@@ -283,6 +285,14 @@ def fp_abstract(fs):
                     axioms.append(z3.Implies(z3.And(both, z3.fpGEQ(b, zero)), z3.fpGEQ(r, a)))
                     axioms.append(z3.Implies(z3.And(both, z3.fpLEQ(a, zero)), z3.fpLEQ(r, b)))
                     axioms.append(z3.Implies(z3.And(both, z3.fpGEQ(a, zero)), z3.fpGEQ(r, b)))
+                    # coarse magnitudes (each is a true fact: |a+b| <= 2 max(|a|,|b|) <= 10 max)
+                    for e in range(10, 16):
+                        lo_, hi_ = z3.FPVal(10.0**e, S), z3.FPVal(10.0 ** (e + 1), S)
+                        axioms.append(z3.Implies(z3.And(z3.fpLEQ(z3.fpAbs(a), lo_), z3.fpLEQ(z3.fpAbs(b), lo_)), z3.fpLEQ(z3.fpAbs(r), hi_)))
+                    for K in (1.0, 2.0, 4.0, 8.0):
+                        k1, k2 = z3.FPVal(K, S), z3.FPVal(2 * K, S)
+                        axioms.append(z3.Implies(z3.And(both, z3.fpLEQ(a, k1), z3.fpLEQ(b, k1)), z3.fpLEQ(r, k2)))
+                        axioms.append(z3.Implies(z3.And(both, z3.fpGEQ(a, z3.fpNeg(k1)), z3.fpGEQ(b, z3.fpNeg(k1))), z3.fpGEQ(r, z3.fpNeg(k2))))
                 elif op == "mul":
                     axioms.append(N(r) == z3.Or(N(a), N(b), z3.And(I(a), Zr(b)), z3.And(Zr(a), I(b))))
                     axioms.append(z3.Implies(z3.Not(N(r)), neg(r) == z3.Xor(neg(a), neg(b))))
@@ -293,6 +303,14 @@ def fp_abstract(fs):
                     axioms.append(z3.Implies(z3.And(both, z3.fpLEQ(z3.fpAbs(b), one)), z3.fpLEQ(z3.fpAbs(r), z3.fpAbs(a))))
                     axioms.append(z3.Implies(z3.fpEQ(a, one), z3.Or(r == b, z3.And(N(r), N(b)))))
                     axioms.append(z3.Implies(z3.fpEQ(b, one), z3.Or(r == a, z3.And(N(r), N(a)))))
+                    for K1 in (1.0, 2.0, 4.0):
+                        for K2 in (1.0, 2.0, 4.0):
+                            axioms.append(
+                                z3.Implies(
+                                    z3.And(both, z3.fpLEQ(z3.fpAbs(a), z3.FPVal(K1, S)), z3.fpLEQ(z3.fpAbs(b), z3.FPVal(K2, S))),
+                                    z3.fpLEQ(z3.fpAbs(r), z3.FPVal(K1 * K2, S)),
+                                )
+                            )
                 elif op == "div":
                     axioms.append(N(r) == z3.Or(N(a), N(b), z3.And(Zr(a), Zr(b)), z3.And(I(a), I(b))))
                     axioms.append(z3.Implies(z3.Not(N(r)), neg(r) == z3.Xor(neg(a), neg(b))))
